@@ -16,7 +16,7 @@ def lib_isinstance(e, st, a, kw, n):
         kinds |= {"bool", "int"}
     if isinstance(x, VStr):
         kinds |= {"str"}
-    if isinstance(x, (VTuple, VSeqOf)) or (isinstance(x, VSeq) and x.pylist):
+    if isinstance(x, (VTuple, VSeqOf)) or (isinstance(x, VSeq) and (x.pylist or (z3.is_int_value(z3.simplify(x.len)) and z3.simplify(x.len).as_long() == 0))):
         kinds |= {"list", "tuple"}
     if isinstance(x, VDict):
         kinds |= {"dict"}
